@@ -42,6 +42,7 @@ pub fn wop(allow_empty: bool) -> impl Strategy<Value = WOp> {
         6 => l().prop_map(WOp::Write),
         3 => prop::collection::vec(l(), 0..=6).prop_map(move |v| if !allow_empty && v.iter().all(|x| *x == 0) { WOp::WriteV(vec![1]) } else { WOp::WriteV(v) }),
         1 => Just(WOp::Yield),
+        1 => Just(WOp::Flush),
     ]
 }
 
